@@ -16,7 +16,7 @@ func init() {
 	register("C18", "Decides structural necessary conditions of 'a restarted core kills what it no longer owns, and only that': "+
 		"(R18a) the persisted framework id is loaded into the id store before the scheduler is built, written back on change, and the same store feeds SUBSCRIBE and subscription tracking; "+
 		"(R18b) every SUBSCRIBED event triggers an implicit reconciliation; (R18c) a reconciliation answer in a live state leads to a Mesos KILL; "+
-		"(R18d) that KILL is only reachable when the task is absent from the roster or not owned by an environment. Does not decide completeness against what Mesos reports after arbitrary crash points.", runC18)
+		"(R18c) ... and depends on nothing but the status message and the ownership lookup; (R18d) that KILL is only reachable when the task is absent from the roster or not owned by an environment. Does not decide completeness against what Mesos reports after arbitrary crash points.", runC18)
 }
 
 func runC18(c *an.Ctx) {
@@ -332,6 +332,20 @@ func r18cd(c *an.Ctx) {
 	sort.Strings(missing)
 	c.Ob(key+"|live-states", kill.Pos(), len(missing) == 0, "the KILL must be reached for every state in which Mesos reports a task alive, and not for terminal ones (problems: %v)", missing)
 
+	// "kills what it no longer owns": whether an unowned live task reported by reconciliation is killed may depend on
+	// nothing but the status message itself (reason, state, message kind) and the ownership lookup. A guard reading
+	// other core state (e.g. "a KILL was already requested once") lets an unowned task survive.
+	var extra []string
+	for _, g := range an.Guards(kill.Block()) {
+		if g.LoopHeader || g.LoopExit {
+			continue
+		}
+		if !reconGuardAllowed(g.V, map[ssa.Value]bool{}) {
+			extra = append(extra, c.PosStr(condPos(g.V)))
+		}
+	}
+	c.Ob(key+"|not-further-conditioned", kill.Pos(), len(extra) == 0, "the reconciliation KILL additionally depends on core state other than the ownership lookup (conditions at %v): when it does not hold, a task of the previous life that nothing owns is reported alive and is not killed (e.g. a first KILL that was lost is never repeated)", extra)
+
 	c.Rule("R18d", "the reconciliation KILL is unreachable for a task that is in the roster and owned by an environment", 1)
 	c.Subject()
 	cut, tests := ownedOnlyCut(fn)
@@ -354,4 +368,156 @@ func onlyGuardedByOwnErr(call, src *ssa.Call) bool {
 		}
 	}
 	return true
+}
+
+func condPos(v ssa.Value) token.Pos {
+	if v.Pos().IsValid() {
+		return v.Pos()
+	}
+	if in, ok := v.(ssa.Instruction); ok {
+		for _, op := range in.Operands(nil) {
+			if *op != nil && (*op).Pos().IsValid() {
+				return (*op).Pos()
+			}
+		}
+	}
+	return token.NoPos
+}
+
+// reconGuardAllowed: condition v is computed from the status message only (reason, state, ids, message kind), or is
+// the roster lookup GetTask()/getByTaskId() == nil, or a boolean combination of such conditions.
+func reconGuardAllowed(v ssa.Value, seen map[ssa.Value]bool) bool {
+	if seen[v] {
+		return true
+	}
+	seen[v] = true
+	switch x := v.(type) {
+	case *ssa.UnOp:
+		if x.Op == token.NOT {
+			return reconGuardAllowed(x.X, seen)
+		}
+	case *ssa.Phi:
+		if x.Comment == "&&" || x.Comment == "||" {
+			for i, e := range x.Edges {
+				if _, isC := e.(*ssa.Const); isC {
+					p := x.Block().Preds[i]
+					if ifi, ok := p.Instrs[len(p.Instrs)-1].(*ssa.If); ok && !reconGuardAllowed(ifi.Cond, seen) {
+						return false
+					}
+					continue
+				}
+				if !reconGuardAllowed(e, seen) {
+					return false
+				}
+			}
+			return true
+		}
+	case *ssa.BinOp:
+		if x.Op == token.EQL || x.Op == token.NEQ {
+			for _, pair := range [][2]ssa.Value{{x.X, x.Y}, {x.Y, x.X}} {
+				if an.IsNilConst(pair[1]) {
+					if _, isP := pair[0].(*ssa.Parameter); isP {
+						return true // nil receiver / nil message checks
+					}
+					if u, ok := pair[0].(*ssa.UnOp); ok && u.Op == token.MUL {
+						if al, ok := u.X.(*ssa.Alloc); ok && an.SpilledParam(al) != nil {
+							return true
+						}
+					}
+				}
+				if call, ok := pair[0].(*ssa.Call); ok && an.IsNilConst(pair[1]) {
+					switch an.MethodName(&call.Call) {
+					case "GetTask", "getByTaskId":
+						return true
+					}
+				}
+			}
+		}
+	}
+	return messageOnly(v, map[ssa.Value]bool{})
+}
+
+// messageOnly: v is computed from the function's parameters (the task manager message), constants and pure getters of
+// the Mesos / taskop message types only - never from the manager's own state.
+func messageOnly(v ssa.Value, seen map[ssa.Value]bool) bool {
+	if v == nil || seen[v] {
+		return true
+	}
+	seen[v] = true
+	switch x := v.(type) {
+	case *ssa.Const:
+		return true
+	case *ssa.Parameter:
+		// the receiver (the manager) is core state; any other parameter is the message
+		return !(len(x.Parent().Params) > 0 && x.Parent().Signature.Recv() != nil && x == x.Parent().Params[0])
+	case *ssa.BinOp:
+		return messageOnly(x.X, seen) && messageOnly(x.Y, seen)
+	case *ssa.UnOp:
+		if al, ok := x.X.(*ssa.Alloc); ok && x.Op == token.MUL {
+			if al.Referrers() != nil {
+				for _, r := range *al.Referrers() {
+					if st, ok := r.(*ssa.Store); ok && st.Addr == ssa.Value(al) && !messageOnly(st.Val, seen) {
+						return false
+					}
+				}
+			}
+			return true
+		}
+		return messageOnly(x.X, seen)
+	case *ssa.Alloc:
+		if x.Referrers() != nil {
+			for _, r := range *x.Referrers() {
+				if st, ok := r.(*ssa.Store); ok && st.Addr == ssa.Value(x) && !messageOnly(st.Val, seen) {
+					return false
+				}
+			}
+		}
+		return true
+	case *ssa.FieldAddr:
+		return messageOnly(x.X, seen)
+	case *ssa.Field:
+		return messageOnly(x.X, seen)
+	case *ssa.IndexAddr:
+		return messageOnly(x.X, seen) && messageOnly(x.Index, seen)
+	case *ssa.Extract:
+		return messageOnly(x.Tuple, seen)
+	case *ssa.Convert:
+		return messageOnly(x.X, seen)
+	case *ssa.ChangeType:
+		return messageOnly(x.X, seen)
+	case *ssa.MakeInterface:
+		return messageOnly(x.X, seen)
+	case *ssa.TypeAssert:
+		return messageOnly(x.X, seen)
+	case *ssa.Phi:
+		for _, e := range x.Edges {
+			if !messageOnly(e, seen) {
+				return false
+			}
+		}
+		// the branch conditions selecting the edges
+		return true
+	case *ssa.Call:
+		n := an.MethodName(&x.Call)
+		pure := strings.HasPrefix(n, "Get") || n == "String" || n == "len"
+		if cal := x.Call.StaticCallee(); cal != nil && cal.Pkg != nil {
+			pp := cal.Pkg.Pkg.Path()
+			if !(strings.Contains(pp, "mesos-go") || strings.HasSuffix(pp, "core/task/taskop") || strings.HasSuffix(pp, "core/task")) {
+				pure = false
+			}
+			if strings.HasSuffix(pp, "core/task") && cal.Signature.Recv() != nil && !strings.HasSuffix(cal.Signature.Recv().Type().String(), "TaskmanMessage") {
+				pure = false
+			}
+		}
+		if !pure {
+			return false
+		}
+		for _, a := range an.Args(&x.Call) {
+			if !messageOnly(a, seen) {
+				return false
+			}
+		}
+		return true
+	}
+	return false
 }
